@@ -1,12 +1,12 @@
 import SimplicityModel.Driver.ProgUtil
 import SimplicityModel.Driver.C06
 import SimplicityModel.PrunePlan
-import SimplicityModel.Prog.Roots
+import SimplicityModel.PruneIds
 /-! C08: `prune <plan> [W:…] [T:…] [C:…] [K:…] [J:…] [E:<env seed>]` →
 `ok <tok_0> … <tok_{n-1}> cmr=<root> principal=yes|no antidos=ok|rejected|n/a` | `fail <kind>`.
 
 The model: types of the plan (`inferM`, all nodes, root `1 → 1`), commitment and identity roots
-(`cmrs`, `annots`); tracker = the record of `evalT` on the elaborated term, labelled with the
+(`cmrs`, `ihrs`); tracker = the record of `evalT` on the elaborated term, labelled with the
 identity root (IHR) of the plan node each term node comes from; pruned plan = `prunePlan` (the
 `prune_case` table, hidden child's CMR from the original roots); types of the pruned program as
 the code computes them = `inferM` on the pruned plan with *all* nodes (the `Pruner` converts every
@@ -64,10 +64,10 @@ def prunePipeline (p : Plan) (ex : Extras) : Res :=
   let all : Nat → Bool := fun _ => true
   match inferM ex.jetTy p all true, cmrs jetCmr p with
   | .ok arrows, some cm =>
-    match annots jetCmr ex.jetCost p arrows ex.wit with
+    match ihrs jetCmr p arrows ex.wit with
     | none => .err "model-annot-failed"
     | some an =>
-      let ids : Nat → Nat := fun i => (an.getD i default).ihr
+      let ids : Nat → Nat := fun i => (an.getD i (0, 0)).2
       let env : Env := { plan := p, arrows := arrows, wit := ex.wit, cmr := cm, jets := ex.jetSem }
       match elabNode env (p.size + 1) (p.size - 1) with
       | none => .err "model-elab-failed"
@@ -109,10 +109,10 @@ def Pruned.antiDos (q : Pruned) (ex : Extras) : String :=
     | some w => some w.2
     | none => ex.wit i
   let jetCmr := fun n => some ((ex.jetCmr n).getD 0)
-  match annots jetCmr ex.jetCost q.plan q.codeArrows wit with
+  match ihrs jetCmr q.plan q.codeArrows wit with
   | none => "model-annot-failed"
   | some an =>
-    let ids : Nat → Nat := fun i => (an.getD i default).ihr
+    let ids : Nat → Nat := fun i => (an.getD i (0, 0)).2
     let env : Env := { plan := q.plan, arrows := q.codeArrows, wit := wit, cmr := q.cmr, jets := ex.jetSem }
     match elabNode env (q.plan.size + 1) (q.plan.size - 1) with
     | none => "model-elab-failed"
